@@ -4,7 +4,11 @@
 package main
 
 import (
+	"bytes"
 	"fmt"
+	tsstypes "github.com/bandprotocol/chain/v3/x/tss/types"
+	"sync"
+	"time"
 
 	sdk "github.com/cosmos/cosmos-sdk/types"
 
@@ -66,7 +70,83 @@ func main() {
 	}, func(h *tssworld.Hist) []tssworld.Monitor {
 		return []tssworld.Monitor{tssworld.NewTunnelSource(h, nil), tssworld.NewDEMonitor()}
 	}, nil)
-	for _, c := range []string{"de-assigned", "tx:tunnel:activate:ok", "de-over-limit-rejected", "de-queue-exactly-full", "de-reset", "failpoint-fired", "failpoint-panicked", "de-submit-while-queue-above-lowered-limit",
+	// fourth part: the queues survive a genesis export / import (chain restart from an exported state) in the order
+	// the nonces were registered; histories with many queued nonces (the limit is 8, 4-6 members top up at the end)
+	var pool sync.Pool
+	tssworld.RunCases(run, "c05g", run.N(24, 400), func(r *sim.Rng, i int) tssworld.Cfg {
+		nm := r.Range(4, 6)
+		return tssworld.Cfg{
+			NMembers: nm, Threshold: uint64(r.Range(1, nm)), MaxDESize: 8, SigningPeriod: 2, MaxAttempts: 2,
+			FeePerSigner: sdk.NewCoins(sdk.NewInt64Coin("uband", 1)), Blocks: r.Range(8, 30), PSubmit: 70, DEOps: true, ReqPerBlockPct: 50,
+		}
+	}, func(h *tssworld.Hist) []tssworld.Monitor {
+		return []tssworld.Monitor{tssworld.NewDEMonitor()}
+	}, func(h *tssworld.Hist) {
+		if h.Failed {
+			return
+		}
+		w := h.W
+		k := w.App.TSSKeeper
+		// top up
+		var txs [][]byte
+		for _, m := range h.TW.Members {
+			q := k.GetDEQueue(w.Ctx(), m.Acc.Addr)
+			if room := int(8 - (q.Tail - q.Head)); room > 0 && h.Rng.Chance(4, 5) {
+				msg, _ := m.MsgSubmitDEs(h.Rng.Range(1, room))
+				txs = append(txs, w.SignTx(m.Acc, msg))
+			}
+		}
+		if _, err := w.Block(txs, time.Second); err != nil {
+			h.Violate("finalize-block-failed", err.Error())
+			return
+		}
+		exported := k.ExportGenesis(w.Ctx())
+		bz := w.App.AppCodec().MustMarshalJSON(exported)
+		var fresh *sim.World
+		if x := pool.Get(); x != nil {
+			fresh = x.(*sim.World)
+		} else {
+			fresh = sim.NewWorld(sim.Config{Seed: 7, NumVals: 1, NumUsers: 1, NoInflation: true})
+		}
+		defer pool.Put(fresh)
+		var imported tsstypes.GenesisState
+		fresh.App.AppCodec().MustUnmarshalJSON(bz, &imported)
+		ctx, _ := fresh.Ctx().CacheContext()
+		func() {
+			defer func() {
+				if r := recover(); r != nil {
+					h.Violate("genesis-import-panicked", fmt.Sprint(r))
+				}
+			}()
+			fresh.App.TSSKeeper.InitGenesis(ctx, imported)
+		}()
+		if h.Failed {
+			return
+		}
+		total := 0
+		for _, m := range h.TW.Members {
+			a := m.Acc.Addr
+			qa, qb := k.GetDEQueue(w.Ctx(), a), fresh.App.TSSKeeper.GetDEQueue(ctx, a)
+			if qa.Tail-qa.Head != qb.Tail-qb.Head {
+				h.Violate("genesis-roundtrip-queue-length", fmt.Sprintf("%s: %d queued nonces before export, %d after import", m.Acc.Name, qa.Tail-qa.Head, qb.Tail-qb.Head))
+				return
+			}
+			for i := uint64(0); i < qa.Tail-qa.Head; i++ {
+				da, ea := k.GetDE(w.Ctx(), a, qa.Head+i)
+				db, eb := fresh.App.TSSKeeper.GetDE(ctx, a, qb.Head+i)
+				if ea != nil || eb != nil || !bytes.Equal(da.PubD, db.PubD) || !bytes.Equal(da.PubE, db.PubE) {
+					h.Violate("genesis-roundtrip-queue-order", fmt.Sprintf("%s: nonce at queue position %d differs after export/import (before %x.., after %x..; %v %v)", m.Acc.Name, i, da.PubD[:6], db.PubD[:min(6, len(db.PubD))], ea, eb))
+					return
+				}
+				total++
+			}
+		}
+		run.Count("genesis-roundtrip-nonces-compared", total)
+		if total > 12 {
+			run.Count("genesis-roundtrip-with-more-than-12-queued-nonces", 1)
+		}
+	})
+	for _, c := range []string{"de-assigned", "tx:tunnel:activate:ok", "genesis-roundtrip-with-more-than-12-queued-nonces", "de-over-limit-rejected", "de-queue-exactly-full", "de-reset", "failpoint-fired", "failpoint-panicked", "de-submit-while-queue-above-lowered-limit",
 		"oracle-tss-result-signings-paid", "oracle-tss-result-signing-failed-other"} {
 		run.Require(c, 1)
 	}
